@@ -60,4 +60,40 @@ theorem C13_context_unchanged (child : Option ChildFn) (ctx : Ctx) (l : PreLine)
         if r.sig == .normal then runNodes child ctx rest r.st (out ++ r.out)
         else .ok { st := r.st, out := out ++ r.out, sig := r.sig }) := rfl
 
+/-- **whether an import is accepted depends only on the files of the live stacks and on the file system** — not on the state (what was
+    compiled, defined, printed or imported before), not on the line the command stands on, not on the frames' line numbers: an import
+    that is accepted once is accepted again from any stack with the same live files — the same file several times one after the other,
+    from a loop, from two branches, along two paths that meet in contexts with the same files -/
+theorem C13_acceptance_is_history_independent (ctx ctx' : Ctx) (pos pos' : Pos) (a : Arg) (st st' : St) (v : Path × List Node)
+    (hfile : ctx'.file = ctx.file) (hfs : ctx'.fs = ctx.fs) (hfiles : ctx'.frames.map (·.file) = ctx.frames.map (·.file))
+    (h : loadImport ctx pos a st = .ok v) : loadImport ctx' pos' a st' = .ok v := by
+  unfold loadImport at h ⊢
+  rw [hfile, hfs, hfiles]
+  cases hf : ctx.file with
+  | none => simp [hf] at h
+  | some file =>
+    simp only [hf] at h ⊢
+    split at h
+    · cases h
+    · rename_i hc
+      simp only [hc, if_false]
+      cases hr : resolveImport file a.str with
+      | error k => simp [hr, raise] at h
+      | ok target =>
+        simp only [hr] at h ⊢
+        cases hread : ctx.fs.read target with
+        | none => simp [hread, raise] at h
+        | some text =>
+          simp only [hread] at h ⊢
+          split at h
+          · simp [raise] at h
+          · rename_i hcyc
+            simp only [hcyc, if_false]
+            exact h
+
+/-- in particular the next statement of the same block (same stack, same context) accepts what this one accepted -/
+theorem C13_same_file_again (ctx : Ctx) (pos pos' : Pos) (a : Arg) (st st' : St) (v : Path × List Node)
+    (h : loadImport ctx pos a st = .ok v) : loadImport ctx pos' a st' = .ok v :=
+  C13_acceptance_is_history_independent ctx ctx pos pos' a st st' v rfl rfl rfl h
+
 end Duckling.Props.C13
